@@ -175,17 +175,17 @@ impl Interpreter {
                 let first = state.stack.last().cloned().ok_or(InterpreterError::NumberOutOfRange)?;
                 let second = state.stack.get(state.stack.len() - 2).cloned().ok_or(InterpreterError::NumberOutOfRange)?;
 
-                state.stack.push_bytes(first);
                 state.stack.push_bytes(second);
+                state.stack.push_bytes(first);
             }
             OpCodes::OP_3DUP => {
                 let first = state.stack.last().cloned().ok_or(InterpreterError::NumberOutOfRange)?;
                 let second = state.stack.get(state.stack.len() - 2).cloned().ok_or(InterpreterError::NumberOutOfRange)?;
                 let third = state.stack.get(state.stack.len() - 3).cloned().ok_or(InterpreterError::NumberOutOfRange)?;
 
-                state.stack.push_bytes(first);
-                state.stack.push_bytes(second);
                 state.stack.push_bytes(third);
+                state.stack.push_bytes(second);
+                state.stack.push_bytes(first);
             }
             OpCodes::OP_2OVER => {
                 let len = state.stack.len();
@@ -208,10 +208,11 @@ impl Interpreter {
                 let x3 = state.stack.pop_bytes()?;
                 let x4 = state.stack.pop_bytes()?;
 
-                state.stack.push_bytes(x3);
-                state.stack.push_bytes(x4);
+                // x4 x3 x2 x1 (x1 on top) -> x2 x1 x4 x3
+                state.stack.push_bytes(x2);
                 state.stack.push_bytes(x1);
-                state.stack.push_bytes(x2)
+                state.stack.push_bytes(x4);
+                state.stack.push_bytes(x3)
             }
             OpCodes::OP_CAT => {
                 let mut x1 = state.stack.pop_bytes()?;
